@@ -19,10 +19,12 @@ Crypt(n) ==
   IN [op |-> "Crypt", msg |-> RE(Msgs), sside |-> RE(Sides), rside |-> RE(Sides), s |-> s, rcur |-> rc, rprev |-> rp,
       tamper |-> RE({"none", "none", "none", "flip", "trunc", "random", "short", "nokeyinfo"}),
       \* how the sender's / receiver's record is filed (key id of its certificate key, an application id, none): must not matter
-      sid |-> RE({"keyid", "custom", "empty"}), rid |-> RE({"keyid", "custom", "empty"})]
+      sid |-> RE({"keyid", "custom", "empty"}), rid |-> RE({"keyid", "custom", "empty"}),
+      dirty |-> RE(BOOLEAN)]        \* the receiver decrypts into a message value that already holds other content
 SetToSeq(S) == CHOOSE q \in [1..Cardinality(S) -> S] : \A i, j \in 1..Cardinality(S) : i # j => q[i] # q[j]
 Rec(n) == LET t == RE(RecTypes) IN
-          [op |-> "Rec", t |-> t, present |-> SetToSeq(RE(Presents(t))), wrapper |-> RE({TRUE, TRUE, FALSE}), withState |-> RE(BOOLEAN)]
+          [op |-> "Rec", t |-> t, present |-> SetToSeq(RE(Presents(t))), wrapper |-> RE({TRUE, TRUE, FALSE}), withState |-> RE(BOOLEAN),
+           rot |-> RE({FALSE, FALSE, TRUE})]      \* the wrapper's encrypting key is rotated between store and load (old values still open)
 Flow(n) == [op |-> "Flow", name |-> RE({"authorize", "token", "rotate", "dial", "dialtoken"}), withState |-> RE(BOOLEAN)]
 Init == hist = <<>> /\ done = FALSE
 Step == /\ Len(hist) < Depth
